@@ -9,7 +9,7 @@
 (* C17 at the design level: for every encoding e and every text d whose    *)
 (* first character is ASCII,  Load(Encode(e, d)) = d.                      *)
 (***************************************************************************)
-EXTENDS Naturals, Sequences, TLC
+EXTENDS Integers, Sequences, TLC
 
 Invalid == <<-1>>
 IsSurrogate(c) == c >= 55296 /\ c <= 57343          \* D800..DFFF
@@ -20,10 +20,10 @@ ValidCp(c) == c <= 1114111 /\ ~IsSurrogate(c)        \* char::from_u32
 (***************************************************************************)
 Utf8Of(c) ==
     IF c < 128 THEN <<c>>
-    ELSE IF c < 2048 THEN <<192 + c \div 64, 128 + c % 64>>
-    ELSE IF c < 65536 THEN <<224 + c \div 4096, 128 + (c \div 64) % 64, 128 + c % 64>>
-    ELSE <<240 + c \div 262144, 128 + (c \div 4096) % 64, 128 + (c \div 64) % 64, 128 + c % 64>>
-Utf16Units(c) == IF c < 65536 THEN <<c>> ELSE <<55296 + (c - 65536) \div 1024, 56320 + (c - 65536) % 1024>>
+    ELSE IF c < 2048 THEN <<192 + (c \div 64), 128 + (c % 64)>>
+    ELSE IF c < 65536 THEN <<224 + (c \div 4096), 128 + ((c \div 64) % 64), 128 + (c % 64)>>
+    ELSE <<240 + (c \div 262144), 128 + ((c \div 4096) % 64), 128 + ((c \div 64) % 64), 128 + (c % 64)>>
+Utf16Units(c) == IF c < 65536 THEN <<c>> ELSE <<55296 + ((c - 65536) \div 1024), 56320 + ((c - 65536) % 1024)>>
 Unit16(u, be) == IF be THEN <<u \div 256, u % 256>> ELSE <<u % 256, u \div 256>>
 Cp32(c, be) == IF be THEN <<0, c \div 65536, (c \div 256) % 256, c % 256>>
                ELSE <<c % 256, (c \div 256) % 256, c \div 65536, 0>>
